@@ -20,6 +20,9 @@ open J Spec.Index
 structure FactsOK (f : Facts) : Prop where
   methods : f.analyzerMethods.Perm (Doc.methods.map fun m => (Str.toUpperAscii m, m))
   defaultHeaderEnums : f.defaultHeaderEnums = true
+  /-- `reset()` clears every field of `Spec` that an analysis fills: after a reload the indexes speak about the document
+      as it is now (what the analyze stream observes through the hook `VerifReload`) -/
+  resetComplete : f.resetStale = []
 
 /-- every position the analyzer indexes -/
 def positions (d : J) : List Pos :=
